@@ -141,13 +141,12 @@ def make_gram_cases(rng, n):
         insts = {nm: (obj, fd) for nm, obj, _, fd in kernels._pen_instances(rng, sep, p)}
         pname = rng.choice(GRAM_PENS)
         pen, fd = insts[pname]
-        # tol = 0 only where the arithmetic is exact in binary64 (dyadic data, power-of-two steps): there the float run and
-        # the exact run take the same decisions at stop_crit == 0
-        exact = pname in ("L1", "WeightedL1", "IndicatorBox", "PositiveConstraint")
+        # no tol = 0 and no tol below ~1e-6: the Gram arithmetic is not exact in binary64 (a column with 3 non-zeros has the step
+        # 4/3), so at stop_crit ~ 1e-16 or objective gaps below one ulp the float run and the exact run may decide differently
         use_acc = rng.random() < 0.6
         cfg = dict(max_iter=rng.choice([7, 8, 9, 14, 15] if use_acc and rng.random() < 0.7 else [0, 1, 2, 3, 5, 8]), use_acc=use_acc,
                    greedy=rng.random() < (0.15 if use_acc else 0.5),
-                   tol=rng.choice(([0.0, 0.0] if exact else []) + [2 ** -30, 2 ** -30, 2 ** -12, 2 ** -4, 0.5]))
+                   tol=rng.choice([2 ** -20, 2 ** -20, 2 ** -12, 2 ** -4, 0.5]))
         w_init = None
         if rng.random() < 0.4:
             w_init = [rng.choice([0.0, 0.0, 0.25, 0.5, -0.5, 1.0]) for _ in range(p)]
@@ -234,6 +233,7 @@ def make_bcd_cases(rng, n_cases):
         M, cfg, w_init, Xw_init, sp, n = _ha.gen_case(rng)
         if rng.random() < 0.5:
             cfg["max_epochs"] = rng.choice([7, 8, 11, 12, 21])          # reach the extrapolation calls of the persistent accelerator
+        _ha.cap_budget(cfg)
         if w_init is not None and rng.random() < 0.1:
             Xw_init = None                                             # w_init without Xw_init: the source dereferences None
         obs = run_real_bcd(M, cfg, w_init, Xw_init, sp, n)
@@ -513,6 +513,7 @@ def make_mt_cases(rng, n_cases):
         cfg = dict(cfg, use_acc=rng.random() < 0.6)
         if rng.random() < 0.6:
             cfg["max_epochs"] = rng.choice([5, 6, 7, 11, 12, 13, 21, 22])       # reach the 6-epoch extrapolation and the 10-epoch test
+        _ha.cap_budget(cfg)
         if w_init is not None and rng.random() < 0.15:
             Xw_init = None
         obs = run_real_mt(M, cfg, w_init, Xw_init, sp, n)
@@ -634,12 +635,42 @@ SOLVER_TARGETS = ["Skel/CorrSolvers.vo"]
 SOLVER_SOURCES = ["skglm/solvers/gram_cd.py", "skglm/solvers/group_bcd.py", "skglm/solvers/prox_newton.py", "skglm/solvers/fista.py", "skglm/utils/anderson.py", "skglm/solvers/multitask_bcd.py", "skglm/solvers/group_prox_newton.py"]
 
 
+def run_e2e(cases, imports, tag, shard):
+    """End-to-end float correspondences (GramCD, FISTA) run on non-dyadic numbers.  Where exact arithmetic has a tie (equal
+    scores under np.argmax, an extrapolated objective equal to the current one, a score equal to the tolerance) binary64 has
+    rounding noise and may decide either way, so such a trace cannot be compared.  A disagreeing trace is therefore re-evaluated
+    on the two margin-shifted instances of Base/QInst.v (every order / equality test moved by 1e-11): if that changes what the
+    MODEL returns, the trace is decision-fragile and is set aside.  At most max(2, 0.4 %) of the traces may be set aside; beyond
+    that (a changed comparison or tie-break hits ties far more often) they all count as disagreements."""
+    import tvlib
+    r = tvlib.run_cases(cases, imports, tag, shard=shard, jobs=16)
+    r["fragile"] = []
+    if r["bad"] and not r["errors"]:
+        by = {c[0]: c for c in cases}
+        near = []
+        for lab in r["bad"]:
+            _, expr, chk, exp = by[lab]
+            vs = [expr]
+            for inst in ("QNumLoose", "QNumTight"):
+                e = expr.replace("gram_case_aa ", f"gram_case_aa_N {inst} ").replace("fista_case ", f"fista_case_N {inst} ")
+                vs.append(e.replace(" Q _ ", f" Q {inst} "))
+            near.append((lab, "(" + ", ".join(vs) + ")", "frag_gram" if "gram_case_aa " in expr else "frag_fista", exp))
+        rn = tvlib.run_cases(near, imports, tag + "x", shard=2, jobs=16)
+        robust = set(rn["bad"])
+        fragile = [lab for lab in r["bad"] if lab not in robust]
+        if not rn["errors"] and len(fragile) <= max(2, int(0.004 * len(cases))):
+            r["bad"] = [lab for lab in r["bad"] if lab not in fragile]
+            r["fragile"] = fragile
+    return r
+
+
 def solver_corr(tier, rng, tag):
     """all skeleton correspondences of this module; returns a dict to be merged by `merge_corr`"""
     import tvlib
     n = 300 if tier == "quick" else 3000
     cases, dist = make_gram_cases(rng, n)
-    r = tvlib.run_cases(cases, GRAM_IMPORTS, tag + "g", shard=10, jobs=16)
+    r = run_e2e(cases, GRAM_IMPORTS, tag + "g", 10)
+    dist["decision_fragile"] = [x[:300] for x in r["fragile"]]
     nb = 300 if tier == "quick" else 2500
     bc, bdist = make_bcd_cases(rng, nb)
     rb = tvlib.run_cases(bc, BCD_IMPORTS, tag + "b", shard=12, jobs=16)
@@ -652,7 +683,8 @@ def solver_corr(tier, rng, tag):
     ac = make_aa_cases(rng, 200 if tier == "quick" else 2000)
     ra = tvlib.run_cases(ac, AA_IMPORTS, tag + "a", shard=25, jobs=16)
     fc, fdist = make_fista_cases(rng, 40 if tier == "quick" else 400)
-    rf = tvlib.run_cases(fc, FISTA_IMPORTS, tag + "f", shard=6, jobs=16)
+    rf = run_e2e(fc, FISTA_IMPORTS, tag + "f", 6)
+    fdist["decision_fragile"] = [x[:300] for x in rf["fragile"]]
     allc = cases + bc + pc + fc + ac + mc + gc_
     return dict(cases=len(allc), bad=r["bad"] + rb["bad"] + rp["bad"] + rf["bad"] + ra["bad"] + rm["bad"] + rg["bad"],
                 errors=r["errors"] + rb["errors"] + rp["errors"] + rf["errors"] + ra["errors"] + rm["errors"] + rg["errors"],
@@ -689,7 +721,7 @@ if __name__ == "__main__" and len(__import__("sys").argv) > 3 and __import__("sy
         r = tvlib.run_cases(cases, AA_IMPORTS, "aa", shard=25, jobs=16)
     elif sys.argv[3] == "fista":
         cases, dist = make_fista_cases(rng, int(sys.argv[2]))
-        r = tvlib.run_cases(cases, FISTA_IMPORTS, "fista", shard=8, jobs=16)
+        r = run_e2e(cases, FISTA_IMPORTS, "fista", 8)
     else:
         cases, dist = make_bcd_cases(rng, int(sys.argv[2]))
         r = tvlib.run_cases(cases, BCD_IMPORTS, "bcd", shard=12, jobs=16)
@@ -703,7 +735,7 @@ if __name__ == "__main__":
     import sys, tvlib
     rng = random.Random(int(sys.argv[1]) if len(sys.argv) > 1 else 1)
     cases, dist = make_gram_cases(rng, int(sys.argv[2]) if len(sys.argv) > 2 else 40)
-    r = tvlib.run_cases(cases, GRAM_IMPORTS, "gram", shard=10, jobs=16)
+    r = run_e2e(cases, GRAM_IMPORTS, "gram", 10)
     print(dist)
     print({k: v for k, v in r.items() if k != "bad"}, len(r["bad"]))
     for x in r["bad"][:5]:
